@@ -51,6 +51,8 @@ func (c *concComp) Exec(t []string) (extra []string, out string, eff bool) {
 		return c.linkRace(atoi("rounds"), int64(atoi("seed")))
 	case "sigstorm":
 		return c.sigStorm(atoi("workers"), atoi("rounds"))
+	case "noderace":
+		return c.nodeRace(atoi("rounds"), atoi("peers"))
 	}
 	return nil, "bad-op", false
 }
@@ -387,7 +389,9 @@ func (c *concComp) Gen(r *rand.Rand, idx int, emit func(string)) { c.gen(r, idx,
 
 func (c *concComp) gen(r *rand.Rand, idx int, emit func(string), sameNode bool) {
 	switch idx % 10 {
-	case 0, 5:
+	case 5:
+		emit(fmt.Sprintf("noderace rounds=%d peers=%d", 60+r.Intn(60), []int{200, 800, 2000}[r.Intn(3)]))
+	case 0:
 		emit(fmt.Sprintf("balances workers=%d each=%d seed=%d", 2+r.Intn(7), 20+r.Intn(60), r.Intn(1000)))
 	case 1, 6:
 		emit(fmt.Sprintf("nonces workers=%d rounds=%d", 6+r.Intn(11), 300+r.Intn(300)))
